@@ -54,9 +54,16 @@ def run(ctx):
         ctx.oblige(TRS, True)
     except Exception as ex:
         ctx.oblige(TRS, False, repr(ex))
-    FS = ["Sympler.ForceSlots." + t for t in ["C20_set_sites_consistent", "C20_write_sites_consistent", "C20_layouts_agree", "C20_calc_sites_consistent", "C20_omp_branch_same_increments", "C20_slot_tables_cover"]]
-    common.lean_obligations(ctx, ["Props.C20", "Props.ThreadsBridge", "Props.ForceSlots", "Sympler.Threads", "Sympler.DynDriver", "symdrv"], ["Props.C20", "Props.ThreadsBridge", "Props.ForceSlots"],
-                            theorem_names() + BR + FS, MODULES + ["Sympler.Gen.ForceSlotsGen", "Props.ForceSlots"])
+    TRC = "translator t_createdist (call sites of the serial and of the OpenMP version of CellLink::createDistances)"
+    try:
+        import t_createdist
+        common.write_if_changed(os.path.join(common.LEAN, "Sympler/Gen/CreateDistGen.lean"), t_createdist.generate(common.REPO))
+        ctx.oblige(TRC, True)
+    except Exception as ex:
+        ctx.oblige(TRC, False, repr(ex))
+    FS = ["Sympler.CreateDist.C20_create_distances_same_sites"] + ["Sympler.ForceSlots." + t for t in ["C20_set_sites_consistent", "C20_write_sites_consistent", "C20_layouts_agree", "C20_calc_sites_consistent", "C20_omp_branch_same_increments", "C20_slot_tables_cover"]]
+    common.lean_obligations(ctx, ["Props.C20", "Props.ThreadsBridge", "Props.ForceSlots", "Props.CreateDist", "Sympler.Threads", "Sympler.DynDriver", "symdrv"], ["Props.C20", "Props.ThreadsBridge", "Props.ForceSlots", "Props.CreateDist"],
+                            theorem_names() + BR + FS, MODULES + ["Sympler.Gen.ForceSlotsGen", "Props.ForceSlots", "Sympler.Gen.CreateDistGen", "Props.CreateDist"])
     n, threads, repeat = (12, "1,2,4,8,16", 1) if not ctx.thorough else (200, "1,2,3,4,8,16", 3)
     workers = 6
     per = (n + workers - 1) // workers
